@@ -17,6 +17,7 @@ import (
 	"go/ast"
 	"go/format"
 	"go/parser"
+	"go/printer"
 	"go/token"
 	"os"
 	"path/filepath"
@@ -32,6 +33,7 @@ type inst struct {
 	nYield int
 	nGo    int
 	nMutex int
+	nSel   int
 	tmp    int
 	sites  []string
 }
@@ -68,10 +70,11 @@ func main() {
 			total.nYield += in.nYield
 			total.nGo += in.nGo
 			total.nMutex += in.nMutex
+			total.nSel += in.nSel
 			total.sites = append(total.sites, in.sites...)
 		}
 	}
-	fmt.Printf("{\"yields\":%d,\"gos\":%d,\"mutexes\":%d}\n", total.nYield, total.nGo, total.nMutex)
+	fmt.Printf("{\"yields\":%d,\"gos\":%d,\"mutexes\":%d,\"selects\":%d}\n", total.nYield, total.nGo, total.nMutex, total.nSel)
 }
 
 func (in *inst) file(path string) error {
@@ -126,7 +129,7 @@ func (in *inst) file(path string) error {
 			return true
 		})
 	}
-	if in.nYield+in.nGo+in.nMutex == 0 {
+	if in.nYield+in.nGo+in.nMutex+in.nSel == 0 {
 		return nil
 	}
 	var buf bytes.Buffer
@@ -294,6 +297,7 @@ func (in *inst) stmt(s ast.Stmt) ast.Stmt {
 		in.clauses(s.Body)
 	case *ast.SelectStmt:
 		in.clauses(s.Body)
+		return in.selectStmt(s)
 	case *ast.LabeledStmt:
 		s.Stmt = in.stmt(s.Stmt)
 	case *ast.GoStmt:
@@ -395,4 +399,91 @@ func (in *inst) goStmt(g *ast.GoStmt) ast.Stmt {
 		&ast.AssignStmt{Lhs: lhs, Tok: token.DEFINE, Rhs: rhs},
 		goCall,
 	}}
+}
+
+// cloneStmt deep-copies a statement by printing and re-parsing it.
+func (in *inst) cloneStmt(s ast.Stmt) (ast.Stmt, error) {
+	var buf bytes.Buffer
+	buf.WriteString("package p\nfunc _() {\nselect {\n")
+	if err := printer.Fprint(&buf, in.fset, s); err != nil {
+		return nil, err
+	}
+	buf.WriteString("\n}\n}\n")
+	f, err := parser.ParseFile(token.NewFileSet(), "clone.go", buf.Bytes(), 0)
+	if err != nil {
+		return nil, fmt.Errorf("re-parse of cloned select clause: %v\n%s", err, buf.String())
+	}
+	sel := f.Decls[0].(*ast.FuncDecl).Body.List[0].(*ast.SelectStmt)
+	return sel.Body.List[0], nil
+}
+
+// selectStmt makes the choice among several ready communication clauses a
+// decision of the simulator instead of the runtime's random pick:
+//
+//	select { case A: a; case B: b }
+//
+// becomes
+//
+//	switch simhook.Select(site, 2) {
+//	case 0: select { case A: a; default: select { case B: b; default: select { case A: a; case B: b } } }
+//	case 1: select { case B: b; default: select { case A: a; default: select { case A: a; case B: b } } }
+//	}
+//
+// i.e. the clauses are polled in a rotation chosen by the simulator and the
+// original select only runs (and blocks) when none was ready. Clause bodies
+// are duplicated textually; `break` keeps its meaning (it leaves the
+// statement). Selects with fewer than two communication clauses are left alone.
+func (in *inst) selectStmt(s *ast.SelectStmt) ast.Stmt {
+	var comm []*ast.CommClause
+	for _, c := range s.Body.List {
+		if cc, ok := c.(*ast.CommClause); ok && cc.Comm != nil {
+			comm = append(comm, cc)
+		}
+	}
+	k := len(comm)
+	if k < 2 {
+		return s
+	}
+	in.nSel++
+	site := &ast.BasicLit{Kind: token.STRING, Value: strconv.Quote(in.site(s.Pos()))}
+	sw := &ast.SwitchStmt{
+		Tag: &ast.CallExpr{
+			Fun:  &ast.SelectorExpr{X: ast.NewIdent("simhook"), Sel: ast.NewIdent("Select")},
+			Args: []ast.Expr{site, &ast.BasicLit{Kind: token.INT, Value: strconv.Itoa(k)}},
+		},
+		Body: &ast.BlockStmt{},
+	}
+	cloneSel := func() ast.Stmt {
+		out := &ast.SelectStmt{Body: &ast.BlockStmt{}}
+		for _, c := range s.Body.List {
+			cl, err := in.cloneStmt(c)
+			if err != nil {
+				fmt.Fprintln(os.Stderr, "verif-instrument:", err)
+				os.Exit(2)
+			}
+			out.Body.List = append(out.Body.List, cl)
+		}
+		return out
+	}
+	for p := 0; p < k; p++ {
+		var inner ast.Stmt = cloneSel()
+		for j := k - 1; j >= 0; j-- {
+			c := comm[(p+j)%k]
+			cl, err := in.cloneStmt(c)
+			if err != nil {
+				fmt.Fprintln(os.Stderr, "verif-instrument:", err)
+				os.Exit(2)
+			}
+			inner = &ast.SelectStmt{Body: &ast.BlockStmt{List: []ast.Stmt{
+				cl,
+				&ast.CommClause{Body: []ast.Stmt{inner}},
+			}}}
+		}
+		var list []ast.Expr
+		if p < k-1 {
+			list = []ast.Expr{&ast.BasicLit{Kind: token.INT, Value: strconv.Itoa(p)}}
+		}
+		sw.Body.List = append(sw.Body.List, &ast.CaseClause{List: list, Body: []ast.Stmt{inner}})
+	}
+	return sw
 }
